@@ -352,6 +352,13 @@ func (c *p1) check(fn *Func, vExpr, tExpr ast.Expr, at ast.Node, allowed ctyKind
 		if org == oConfigEval {
 			pending.null, pending.known = true, true
 		}
+		// the value parameter of an exported function is whatever the caller has: a typed
+		// null passes every kind guard and makes the collection accessors panic
+		if org == oParam && depth == 0 && fn.Obj != nil && fn.Obj.Exported() && fn.Parent == nil {
+			if sig, ok := fn.Obj.Type().(*types.Signature); ok && sig.Recv() == nil {
+				pending.null = true
+			}
+		}
 	} else {
 		tp = fn.Canon(tExpr)
 		if tp == "" {
